@@ -57,6 +57,9 @@ class SymFile(object):
     def flush(self):
         pass
 
+    def close(self):
+        pass
+
     def getcells(self):
         return list(self.cells)
 
